@@ -187,7 +187,7 @@ func runC03(r *mon.Run) {
 		for _, lab := range labelings {
 			desc := fmt.Sprintf("%s labels=%v", shape, lab)
 			r.Distinct("lib-shared", desc)
-			ok, pv, stack := verifyList(cloneList(list), pks, ctx, nonce, false, labelsOf(lab))
+			ok, pv, stack := c02Verify(cloneList(list), pks, ctx, nonce, false, labelsOf(lab))
 			r.Eval("lib-shared", outcome(ok, pv))
 			if pv != nil {
 				r.PanicSeen(mon.PanicSite(stack))
@@ -219,7 +219,7 @@ func runC03(r *mon.Run) {
 					continue
 				}
 				obj := cloneList(list)
-				ok0, _, _ := verifyList(obj, pks, ctx, nonce, false, nil)
+				ok0, _, _ := c02Verify(obj, pks, ctx, nonce, false, nil)
 				src := obj[a].SecretKeyResponse()
 				if ok0 || src == nil {
 					continue
@@ -232,7 +232,7 @@ func runC03(r *mon.Run) {
 				}
 				desc := fmt.Sprintf("%s member %d's secret-key response overwritten with member %d's on objects that were verified before", shape, b, a)
 				r.Distinct("equalised-reused-objects", desc)
-				ok, pv, _ := verifyList(obj, pks, ctx, nonce, false, nil)
+				ok, pv, _ := c02Verify(obj, pks, ctx, nonce, false, nil)
 				r.Eval("equalised-reused-objects", outcome(ok, pv))
 				c03Oracle(r, "equalised-reused-objects", desc, ok, secrets, nil, obj, pks)
 			}
@@ -246,7 +246,7 @@ func runC03(r *mon.Run) {
 				continue
 			}
 			lab := make([]string, l)
-			ok, pv, _ := verifyList(cloneList(list), pks, ctx, nonce, false, lab)
+			ok, pv, _ := c02Verify(cloneList(list), pks, ctx, nonce, false, lab)
 			r.Eval("label-length", outcome(ok, pv))
 			if ok {
 				r.Violation("C03/label-list-length-ignored", fmt.Sprintf("list of %d proofs accepted with %d labels", j.n, l), map[string]any{"shape": shape})
@@ -293,12 +293,31 @@ func c03Collude(r *mon.Run, jr *rand.Rand, shape string, keys []*world.Key, cred
 		for _, lab := range [][]int{nil, {0, 0}} {
 			d := fmt.Sprintf("%s a=%d b=%d %s labels=%v", shape, a, b, desc, lab)
 			r.Distinct(family, d)
-			ok, pv, stack := verifyList(cloneList(list), pks, ctx, nonce, false, labelsOf(lab))
+			ok, pv, stack := c02Verify(cloneList(list), pks, ctx, nonce, false, labelsOf(lab))
 			r.Eval(family, outcome(ok, pv))
 			if pv != nil {
 				r.PanicSeen(mon.PanicSite(stack))
 			}
 			c03Oracle(r, family, d, ok, sec, lab, list, pks)
+		}
+		// the same colluder placed FIRST, with the list's challenge computed over the other member's contribution only: a
+		// member whose contribution the verifier cannot (or does not) compute must not leave the list verifiable
+		ph := mkHonest(a)
+		hc := ph.Commit()
+		pb.Commit()
+		c := refimpl.Challenge(ctx, nonce, hc, false)
+		list2 := gabi.ProofList{pb.RespondProof(c), ph.RespondProof(c)}
+		pks2 := []*gabikeys.PublicKey{pks[1], pks[0]}
+		sec2 := []*big.Int{sec[1], sec[0]}
+		for _, lab := range [][]int{nil, {0, 0}} {
+			d := fmt.Sprintf("%s a=%d b=%d %s, colluder first and left out of the challenge, labels=%v", shape, a, b, desc, lab)
+			r.Distinct(family+"-unhashed", d)
+			ok, pv, stack := c02Verify(cloneList(list2), pks2, ctx, nonce, false, labelsOf(lab))
+			r.Eval(family+"-unhashed", outcome(ok, pv))
+			if pv != nil {
+				r.PanicSeen(mon.PanicSite(stack))
+			}
+			c03Oracle(r, family+"-unhashed", d, ok, sec2, lab, list2, pks2)
 		}
 	}
 	// mirrored secret: an issuance commitment to -s_a with randomiser -rs answers with exactly the negated response of member a
@@ -310,7 +329,7 @@ func c03Collude(r *mon.Run, jr *rand.Rand, shape string, keys []*world.Key, cred
 		for _, lab := range [][]int{nil, {0, 0}} {
 			d := fmt.Sprintf("%s a=%d commitment to the negated secret with the negated randomiser labels=%v", shape, a, lab)
 			r.Distinct("collude-mirrored", d)
-			ok, pv, stack := verifyList(cloneList(list), pks, ctx, nonce, false, labelsOf(lab))
+			ok, pv, stack := c02Verify(cloneList(list), pks, ctx, nonce, false, labelsOf(lab))
 			r.Eval("collude-mirrored", outcome(ok, pv))
 			if pv != nil {
 				r.PanicSeen(mon.PanicSite(stack))
@@ -341,7 +360,7 @@ func c03Collude(r *mon.Run, jr *rand.Rand, shape string, keys []*world.Key, cred
 		for _, lab := range [][]int{nil, {0, 0}} {
 			d := fmt.Sprintf("%s a=%d second member is a commitment to s_a/k answering k*c (k=%d, 0: secret 1) labels=%v", shape, a, k, lab)
 			r.Distinct("collude-own-challenge", d)
-			ok, pv, stack := verifyList(cloneList(list), pks, ctx, nonce, false, labelsOf(lab))
+			ok, pv, stack := c02Verify(cloneList(list), pks, ctx, nonce, false, labelsOf(lab))
 			r.Eval("collude-own-challenge", outcome(ok, pv))
 			if pv != nil {
 				r.PanicSeen(mon.PanicSite(stack))
@@ -399,7 +418,7 @@ func c03Collude(r *mon.Run, jr *rand.Rand, shape string, keys []*world.Key, cred
 					for _, lab := range [][]int{nil, {0, 0}} {
 						d := fmt.Sprintf("%s a=%d b=%d both signatures re-expressed over the CRT value M+%d*e_a*e_b (%d bits) labels=%v", shape, a, b, shift, Mk.BitLen(), lab)
 						r.Distinct("collude-crt", d)
-						ok, pv, stack := verifyList(cloneList(list), pks, ctx, nonce, false, labelsOf(lab))
+						ok, pv, stack := c02Verify(cloneList(list), pks, ctx, nonce, false, labelsOf(lab))
 						r.Eval("collude-crt", outcome(ok, pv))
 						if pv != nil {
 							r.PanicSeen(mon.PanicSite(stack))
@@ -418,7 +437,7 @@ func c03Collude(r *mon.Run, jr *rand.Rand, shape string, keys []*world.Key, cred
 			list, _ := refimpl.ProveList([]refimpl.Prover{pa, pb}, ctx, nonce, false)
 			d := fmt.Sprintf("%s a=%d b=%d both disclose attr0", shape, a, b)
 			r.Distinct("collude-disclose0", d)
-			ok, pv, stack := verifyList(cloneList(list), pks, ctx, nonce, false, nil)
+			ok, pv, stack := c02Verify(cloneList(list), pks, ctx, nonce, false, nil)
 			r.Eval("collude-disclose0", outcome(ok, pv))
 			if pv != nil {
 				r.PanicSeen(mon.PanicSite(stack))
